@@ -179,7 +179,7 @@ def rule_collide(chk, cav):
                 if k.arg is None and isinstance(k.value, ast.Name) and k.value.id == cav:
                     n_splats += 1
                     for g in ctx.targets(w, x):
-                        named = [a.arg for a in g.node.args.args + g.node.args.kwonlyargs if a.arg not in ("self", "cls")]
+                        named = [a.arg for a in g.node.args.posonlyargs + g.node.args.args + g.node.args.kwonlyargs if a.arg not in ("self", "cls")]
                         if named:
                             bad.append("%s(**%s) binds user parameter names to %s's own parameters %s" % (unparse(x.func), cav, g.fq, named))
     chk.req(not bad, "C18.collide", "log_call.logging_wrapper:no-user-keyed-splat-into-named-parameters", chk.where(w),
